@@ -1,6 +1,7 @@
 import SamplyModel.Proto
 import SamplyModel.Model.BreakpadIndex
 import SamplyModel.Model.BreakpadSpec
+import SamplyModel.Model.BreakpadWholesym
 /-!
 Line protocol for C10 (all numbers decimal; `<hex>` lower-case hex, `-` = empty).
 
@@ -15,7 +16,12 @@ ops
     rep <count> <hex> junk         the bytes repeated
     tiebreak <sym|file|origin> <key> <offset>
     part <cut>*  |  partsize <n>   partitions of the text (the first one is `part` = one chunk)
-    lookup <addr>*
+    lookup <addr>*                 lookups, in this order (addresses may repeat, later passes are not ascending)
+    itersyms                       `iter_symbols()` on the map at this point of the lookup sequence
+    stored <kind> <hex>            another symbol map over the same text that is offered these bytes as `.symindex`
+                                   (kind: empty | trunc | magic | counts | foreign | garbage | padded)
+    wholesym fresh                 the text as a local `.sym` file under a wholesym `SymbolManager` with a symindex
+    wholesym stale <kind> <hex>    cache directory; `stale`: a `.symindex` file with these bytes exists already
 
 out
     part <i> <ok|err|panic> <len> <fnv>
@@ -23,6 +29,9 @@ out
     roundtrip <ok|err> <reserLen> <reserFnv> <same|diff>
     selfmap <ok <debugid>|err:notbreakpad|err:nomodule|panic>, look …, frame …
     storedmap …, slook …, sframe …
+    iter <addr> <namehex> / siter …                      after an `itersyms` op (`iter panic` if it panicked)
+    x<k>map …, x<k>look …, x<k>frame …, x<k>iter …       the k-th `stored` op
+    w<k>map …, w<k>look …, w<k>frame …, w<k>iter …, w<k>index <absent|panic|<len> <fnv>>   the k-th `wholesym` op
 
 The model uses only `l`/`rep` (text bytes), `tiebreak`, `part`/`partsize`, `lookup`. The judge uses the
 abstract records and the implementation's output, never the model's mechanism (see `judge`).
@@ -84,6 +93,10 @@ structure Case where
   ties : List (String × Nat × Nat)
   parts : List PartOp
   lookups : List Nat
+  /-- lookups and `itersyms` in op order: `some a` = lookup of `a`, `none` = iter_symbols -/
+  actions : List (Option Nat)
+  stored : List (String × List UInt8)
+  ws : List (Option (String × List UInt8))
 
 def pairs : List Nat → List (Nat × Nat)
   | a :: b :: rest => (a, b) :: pairs rest
@@ -110,6 +123,9 @@ structure PState where
   ties : Array (String × Nat × Nat) := #[]
   parts : Array PartOp := #[]
   lookups : Array Nat := #[]
+  actions : Array (Option Nat) := #[]
+  stored : Array (String × List UInt8) := #[]
+  ws : Array (Option (String × List UInt8)) := #[]
 
 def parseOp (st : PState) (l : String) : PState :=
   match words l with
@@ -128,12 +144,19 @@ def parseOp (st : PState) (l : String) : PState :=
   | ["tiebreak", t, k, o] => { st with ties := st.ties.push (t, nat! k, nat! o) }
   | "part" :: cs => { st with parts := st.parts.push (.cuts (cs.map nat!)) }
   | ["partsize", n] => { st with parts := st.parts.push (.size (nat! n)) }
-  | "lookup" :: as => { st with lookups := st.lookups ++ (as.map nat!).toArray }
+  | "lookup" :: as =>
+    { st with lookups := st.lookups ++ (as.map nat!).toArray,
+              actions := st.actions ++ (as.map fun a => some (nat! a)).toArray }
+  | ["itersyms"] => { st with actions := st.actions.push none }
+  | ["stored", k, h] => { st with stored := st.stored.push (k, unhex h) }
+  | ["wholesym", "fresh"] => { st with ws := st.ws.push none }
+  | ["wholesym", "stale", k, h] => { st with ws := st.ws.push (some (k, unhex h)) }
   | _ => st
 
 def parseCase (ls : List String) : Case :=
   let st := ls.foldl parseOp {}
-  ⟨st.family, st.reading, st.text.toList, st.lines.toList, st.ties.toList, st.parts.toList, st.lookups.toList⟩
+  ⟨st.family, st.reading, st.text.toList, st.lines.toList, st.ties.toList, st.parts.toList, st.lookups.toList,
+   st.actions.toList, st.stored.toList, st.ws.toList⟩
 
 def pickOf (ties : List (String × Nat × Nat)) : Pick :=
   let f (t : String) (k : Nat) : Nat :=
@@ -191,14 +214,44 @@ def debugIdString (id : List UInt8) : String :=
   let k := if 9 ≤ id.length ∧ id.length ≤ 16 then 8 else 32
   String.ofList (((id.take k).map upperHexByte).map (fun b => Char.ofNat b.toNat)) ++ lowerHexNat (hexValue (id.drop k))
 
-def showMap (p : String) (text : List UInt8) (lookups : List Nat) : MapOutcome → List String
-  | .panic => [s!"{p}map panic"]
-  | .notBreakpad => [s!"{p}map err:notbreakpad"]
-  | .noModule => [s!"{p}map err:nomodule"]
+/-- answers of `BP.lookup` / `BP.iterSymbols` for one index, computed once per distinct address and shared
+by all maps of a case that hold the same index (pure memoisation of the driver; the functions evaluated
+are `BP.lookup text ix a` and `BP.iterSymbols text ix`) -/
+structure Table where
+  ix : Index
+  looks : List (Nat × Look)
+  iter : Option (List (Nat × List UInt8))
+
+def mkTable (text : List UInt8) (actions : List (Option Nat)) (ix : Index) : Table :=
+  let addrs := (actions.filterMap id).eraseDups
+  ⟨ix, addrs.map (fun a => (a, lookup text ix a)),
+   if actions.any (·.isNone) then iterSymbols text ix else some []⟩
+
+def tableFor (text : List UInt8) (actions : List (Option Nat)) (cache : List Table) (ix : Index) :
+    List Table × Table :=
+  match cache.find? (fun t => t.ix == ix) with
+  | some t => (cache, t)
+  | none => let t := mkTable text actions ix; (t :: cache, t)
+
+/-- lines of one symbol map; `m` = tag of the map line, `pre` = prefix of `look` / `frame` / `iter` -/
+def showMapT (m pre : String) (text : List UInt8) (actions : List (Option Nat)) (cache : List Table) :
+    MapOutcome → List Table × List String
+  | .panic => (cache, [s!"{m} panic"])
+  | .notBreakpad => (cache, [s!"{m} err:notbreakpad"])
+  | .noModule => (cache, [s!"{m} err:nomodule"])
   | .ok ix =>
     let id := match deriveModule ix.moduleInfo with | some m => debugIdString m.id | none => "?"
-    let pre := if p = "self" then "" else "s"
-    s!"{p}map ok {id}" :: lookups.flatMap fun a => showLook pre a (lookup text ix a)
+    let (cache, t) := tableFor text actions cache ix
+    (cache, s!"{m} ok {id}" :: actions.flatMap fun
+      | some a => showLook pre a ((t.looks.lookup a).getD .none)
+      | none => match t.iter with
+        | none => [s!"{pre}iter panic"]
+        | some l => l.map fun (a, n) => s!"{pre}iter {a} {hexOf n}")
+
+def showWsIdx (tag : String) : WsIdx → String
+  | .panic => s!"{tag} panic"
+  | .absent => s!"{tag} absent"
+  | .file b => s!"{tag} {b.length} {(fnv b).toNat}"
 
 def showIndex (bytes : List UInt8) : List String :=
   match parseSymindex bytes with
@@ -227,9 +280,17 @@ def model (ls : List String) : List String :=
   let stored := match outs.getLast? with
     | some (.ok b) => some b
     | _ => none
-  partLines ++ ixLines
-    ++ showMap "self" c.text c.lookups (mapSelf pick c.text)
-    ++ showMap "stored" c.text c.lookups (mapStored pick c.text stored)
+  let maps : List (String × String × MapOutcome × List String) :=
+    [("selfmap", "", mapSelf pick c.text, []), ("storedmap", "s", mapStored pick c.text stored, [])]
+    ++ ((List.range c.stored.length).zip c.stored).map (fun (k, (_, b)) =>
+        (s!"x{k}map", s!"x{k}", mapStored pick c.text (some b), []))
+    ++ ((List.range c.ws.length).zip c.ws).map (fun (k, e) =>
+        let r := wsLocalMap pick [] c.text (e.map (·.2))
+        (s!"w{k}map", s!"w{k}", r.1, [showWsIdx s!"w{k}index" r.2]))
+  let mapLines := (maps.foldl (fun (acc : List Table × List String) (m, pre, o, tail) =>
+      let (cache, ls) := showMapT m pre c.text c.actions acc.1 o
+      (cache, acc.2 ++ ls ++ tail)) ([], [])).2
+  partLines ++ ixLines ++ mapLines
 
 /-! ### the judge: the statement of C10 evaluated on the implementation's own output
 
@@ -452,6 +513,18 @@ def checkExact (sf : BPS.SymFile) (looks : List LookOut) : Option String :=
     if expected = got then none
     else some s!"reading:exact lookup {lo.addr}: BPS.readDirectly gives {expected} but the implementation {got}") looks
 
+/-- lines of the map whose tags carry the prefix `p` (`x0`, `w1`, …), prefix removed -/
+def mapLinesOf (impl : List String) (p : String) : List String :=
+  impl.filterMap fun l =>
+    if l.startsWith (p ++ "map") || l.startsWith (p ++ "look") || l.startsWith (p ++ "frame")
+        || l.startsWith (p ++ "iter") then some (l.drop p.length).toString
+    else none
+
+/-- kinds of damaged `.symindex` files that no reader may accept (empty, a proper prefix of a valid
+index, wrong magic, a table announced beyond the end of the file): the map must behave as if no index had
+been offered -/
+def mustReject (k : String) : Bool := k = "empty" || k = "trunc" || k = "magic" || k = "counts"
+
 def judge (ops impl : List String) : Bool × String :=
   let c := parseCase ops
   let w := impl.map words
@@ -484,8 +557,10 @@ def judge (ops impl : List String) : Bool × String :=
   | some e => (false, e)
   | none =>
   -- 3. stored index vs self-built index
-  let selfL := impl.filter (fun l => l.startsWith "selfmap" || l.startsWith "look" || l.startsWith "frame")
-  let storedL := impl.filter (fun l => l.startsWith "storedmap" || l.startsWith "slook" || l.startsWith "sframe")
+  let selfL := impl.filter (fun l => l.startsWith "selfmap" || l.startsWith "look" || l.startsWith "frame"
+    || l.startsWith "iter")
+  let storedL := impl.filter (fun l => l.startsWith "storedmap" || l.startsWith "slook" || l.startsWith "sframe"
+    || l.startsWith "siter")
   let strip (l : String) : String :=
     if l.startsWith "storedmap" then "selfmap" ++ (l.drop 9).toString
     else (l.drop 1).toString
@@ -493,6 +568,40 @@ def judge (ops impl : List String) : Bool × String :=
     let i := (selfL.zip (storedL.map strip)).findIdx? (fun (a, b) => a ≠ b)
     (false, s!"stored-vs-self: the map with the stored index answers differently (first difference at line {i.getD 0}: {selfL[i.getD 0]?.getD ""} vs {storedL[i.getD 0]?.getD ""})")
   else
+  -- 3b. damaged stored indexes are ignored; the index wholesym writes for a local `.sym` file is the index
+  --     of the text (the one every partition gave), an existing `.symindex` is left alone, and the maps
+  --     built that way answer like the self-indexing map
+  let selfNorm := selfL.map fun l => if l.startsWith "selfmap" then "map" ++ (l.drop 7).toString else l
+  let firstDiff (a b : List String) : String :=
+    match (a.zip b).find? (fun (x, y) => x ≠ y) with
+    | some (x, y) => s!"{x} vs {y}"
+    | none => s!"{a.length} vs {b.length} lines"
+  let xErr := firstSome (fun ((k, e) : Nat × String × List UInt8) =>
+      let got := mapLinesOf impl s!"x{k}"
+      if mustReject e.1 && got ≠ selfNorm then
+        some s!"stored-bad: stored index {k} ({e.1}, {e.2.length} bytes) must be ignored but the map differs from the self-indexing one ({firstDiff selfNorm got})"
+      else none) ((List.range c.stored.length).zip c.stored)
+  match xErr with
+  | some e => (false, e)
+  | none =>
+  let notBp := impl.any (·.startsWith "selfmap err:notbreakpad")
+  let wErr := firstSome (fun ((k, e) : Nat × Option (String × List UInt8)) =>
+      let got := mapLinesOf impl s!"w{k}"
+      let idx := ((w.find? (·.head? = some s!"w{k}index")).getD []).drop 1
+      match e with
+      | none =>
+        let expectIdx := if !notBp && s0.head? = some "ok" then s0.drop 1 else ["absent"]
+        if idx ≠ expectIdx then some s!"wholesym: the .symindex written for the local file is {idx}, the index of the text is {expectIdx}"
+        else if got ≠ selfNorm then some s!"wholesym: the map over the local file differs from the self-indexing one ({firstDiff selfNorm got})"
+        else none
+      | some (kind, b) =>
+        if idx ≠ [toString b.length, toString (fnv b).toNat] then some s!"wholesym: the existing .symindex ({kind}) was changed to {idx}"
+        else if mustReject kind && got ≠ selfNorm then
+          some s!"wholesym: existing .symindex ({kind}) must be ignored but the map differs from the self-indexing one ({firstDiff selfNorm got})"
+        else none) ((List.range c.ws.length).zip c.ws)
+  match wErr with
+  | some e => (false, e)
+  | none =>
   -- 4. agreement with a direct reading of the abstract records; only for files the generator declares
   --    well-formed and that start with a MODULE record (a shrunk case may have lost it)
   let startsWithModule := match c.lines.head? with
@@ -530,19 +639,36 @@ def judge (ops impl : List String) : Bool × String :=
   if !(impl.any (·.startsWith "selfmap ok")) then (false, "reading: no symbol map for a well-formed file") else
   let looks := splitLooks "" impl []
   if looks.map (·.addr) ≠ c.lookups then (false, "reading: lookup lines do not match the lookup ops") else
-  match firstSome (checkLookup syms files origins) looks with
+  -- every lookup is judged; a failure that is not the known line-gap deviation is reported first, and the
+  -- lookups at addresses without that deviation are still compared with `BPS.readDirectly` below, so that the
+  -- known finding cannot mask another failure in the same case
+  let verdicts := looks.map fun lo => (lo, checkLookup syms files origins lo)
+  let errs := verdicts.filterMap (·.2)
+  match errs.find? (fun e => !e.startsWith "reading:line-gap") with
   | some e => (false, e)
   | none =>
+    let gapErr := errs.head?
+    let sound := verdicts.filterMap fun (lo, e) => if e.isNone then some lo else none
+    -- iter_symbols: every symbol of the index, ascending, with the name of a record at that address
+    let iterL := w.filter (·.head? = some "iter")
+    let nIter := (c.actions.filter (·.isNone)).length
+    let expectA := (List.replicate nIter (gotSyms.map (·.1))).flatten
+    let iterOk := iterL.length = expectA.length && (iterL.zip expectA).all fun (l, a) =>
+      match l with
+      | [_, a', n] => nat! a' = a && syms.any (fun s => s.addr = a && hexOf s.name = n)
+      | _ => false
+    if !iterOk then (false, s!"reading:iter iter_symbols does not list the symbols of the text in ascending order ({iterL.length} lines for {expectA.length} symbols)") else
     -- when the text is literally `BPS.render` of the records and the keys are distinct, the answers must
-    -- be exactly those of `BPS.readDirectly`, the specification of theorem C10_reading
+    -- be exactly those of `BPS.readDirectly`, the specification of theorems C10_reading / C10_reading_at
+    let fin (msg : String) : Bool × String := match gapErr with | some e => (false, e) | none => (true, msg)
     match toSymFile c with
-    | none => (true, "ok")
+    | none => fin "ok"
     | some sf =>
       if BPS.render sf = c.text && nodupNat (BPS.symAddrs sf.lines) && nodupNat (BPS.fileIdxs sf.lines)
           && nodupNat (BPS.originIdxs sf.lines) then
-        match checkExact sf looks with
+        match checkExact sf sound with
         | some e => (false, e)
-        | none => (true, "ok exact")
-      else (true, "ok")
+        | none => fin "ok exact"
+      else fin "ok"
 
 end C10
